@@ -304,10 +304,17 @@ def run(cx):
             cx.report_known(k)
         else:
             cx.notes.append("known finding %s: witness no longer fails" % k["id"])
+    unreproduced = 0
     for sig, fs in sorted(seen_sig.items()):
         f = fs[0]
         if not reproduce(cx, drv, f):
-            raise vlib.Inconclusive("disagreement not reproduced on re-observation: %s" % f["detail"][:300])
+            # an observation that differs once and not again (a worker cut short under load) decides nothing: a few
+            # are noted, many make the run Inconclusive; never a violation
+            unreproduced += 1
+            cx.notes.append("disagreement not reproduced on re-observation: %s" % f["detail"][:300])
+            if unreproduced > 3:
+                raise vlib.Inconclusive("%d disagreements not reproduced on re-observation, e.g. %s" % (unreproduced, f["detail"][:300]))
+            continue
         cx.violation("%s [%s universe %s; %d case(s) with this signature]" % (f["detail"], sig, f["leg"].name, len(fs)),
                      {"leg": f["leg"].name, "signature": sig, "values": f["values"],
                       "cases": [f["by_id"][i] for i in f["ids"]][:9],
